@@ -644,10 +644,14 @@ class PLSSDesc:
         # Lock down parameters for this parse.
 
         require_colon = self.require_colon
-        if sec_colon_required is not None:
-            require_colon = self.sec_colon_required
-        elif sec_colon_cautious:
-            require_colon = SecFinder.SEC_COLON_CAUTIOUS
+        if sec_colon_required is not None or sec_colon_cautious is not None:
+            if sec_colon_required is None:
+                sec_colon_required = self.sec_colon_required
+            if sec_colon_cautious is None:
+                sec_colon_cautious = self.sec_colon_cautious
+            require_colon = bool(sec_colon_required)
+            if sec_colon_cautious and not sec_colon_required:
+                require_colon = SecFinder.SEC_COLON_CAUTIOUS
 
         if layout is None:
             layout = self.layout
@@ -676,7 +680,7 @@ class PLSSDesc:
             clean_qq = self.clean_qq
 
         # Config object for passing down to Tract objects.
-        handed_down_config = self.config.decompile_to_text()
+        handed_down_config = Config(self.config)
 
         if segment is None:
             segment = self.segment
@@ -695,6 +699,16 @@ class PLSSDesc:
             qq_depth_min = self.qq_depth_min
         if qq_depth_max is None:
             qq_depth_max = self.qq_depth_max
+
+        # The Tract-level parameters locked down for this parse control
+        # over what was configured before.
+        handed_down_config.clean_qq = clean_qq
+        handed_down_config.suppress_lot_divs = self.suppress_lot_divs
+        handed_down_config.break_halves = break_halves
+        handed_down_config.qq_depth = qq_depth
+        handed_down_config.qq_depth_min = qq_depth_min
+        handed_down_config.qq_depth_max = qq_depth_max
+        handed_down_config = handed_down_config.decompile_to_text()
 
         # Parameters for `PLSSParser.parse()`.
         config_params = {
